@@ -38,7 +38,7 @@ def build(ub, algebra_text):
     pre, post = open(os.path.join(base, "prelude/maps.rs")).read().split("//@@EXTRACTED-ITEMS@@")
     ub.out("// @@FILE prelude/maps.rs (part 1)\n" + pre)
     ub.emit_item(CTXF, "struct", "ExprRef", "#[derive(PartialEq, Eq, Clone, Copy, Structural)]", replace=[["(NonZeroU32)", "(pub NonZeroU32)"]])
-    ub.out("// @@FILE prelude/maps.rs (part 2)\n" + post)
+    ub.out("// @@FILE prelude/maps.rs (part 2)\n" + post.replace("//@@MAPS-CONTAINERS@@", ""))
     ub.emit_raw("lemmas/fixpoint.rs")
     ub.emit_fn(META, "get_fixed_point", "verify", cfg={"receivers": {"m": "map"}, "no_canary": True})
     # ---- the two containers: struct definitions verbatim (bounds `Default + Clone + Debug` spelled `DefaultV + Clone`), abstract views here
